@@ -385,6 +385,14 @@ def fam_close(rng, n):
         steps += [{"op": "sleep", "ms": 20}, {"op": "close", "from": "main"}, {"op": "wait_closed"}]
         out.append({"name": "close/many_peers_%s" % ("stopped" if stopped else "running"), "conf": conf(),
                     "endpoints": [{"kind": "tcp_server"}], "steps": steps})
+    # unusual but accepted configuration values with every module switched on: whatever Initialize answers, a failure leaves
+    # no listener behind and a success is followed by an ordinary Close
+    for j, kw in enumerate([dict(sr_enable=True, sr_freq=65536), dict(sr_enable=True, sr_freq=100000), dict(sr_enable=True, sr_freq=-5),
+                            dict(sr_enable=True, sr_freq=65535, hb_disable=False, hb_period_ms=1), dict(hb_disable=False, hb_systype=300, hb_autopilot=-1),
+                            dict(sr_enable=True, idle_ms=1, read_ms=1, write_ms=1)]):
+        out.append({"name": "close/odd_configuration_%d" % j, "conf": conf(expect_init="any", **kw),
+                    "endpoints": [{"kind": "tcp_server"}, {"kind": "udp_server"}, {"kind": "custom"}],
+                    "steps": [{"op": "sleep", "ms": 20}, {"op": "close", "from": "main"}, {"op": "wait_closed"}]})
     # Initialize fails at an extra last endpoint (busy port), then it is called again on the same Node value without it
     for stopped in (False, True):
         t = Tags(49600)
